@@ -425,6 +425,7 @@ def run(ctx, rep):
     c04_recursion.run_fanout(ctx, rep, rid="R-C12-fanout")
     c04_recursion.run_depth(ctx, rep, rid="R-C12-depth")
     c04_recursion.run_fmtself(ctx, rep, rid="R-C12-fmtself")
+    c04_recursion.run(ctx, rep, rid="R-C12-recursion")
     # the server slices the text it stores with offsets computed on the pre-processed text: no step may change the length of the text
     from rules.c08 import rule_prestep
     rule_prestep(ctx, rep, rid="R-C12-prestep")
